@@ -595,6 +595,17 @@ def _run(case, cfg, w):
              if r2['pkt'].data == ['s', 'OWN']])
     if n != 1:
         v.add('own_message_applied_again', 'delivered %d times' % n)
+    if len(hosts) > 1:
+        # ... and what ANOTHER host published is not one of its own
+        w.api('h1', 'emit', 's', 'OTHER', to=sent_sid)
+        for _ in range(6):
+            w.settle(horizon=1.0)
+        n = len([r2 for r2 in sc.peers['sent'].rx
+                 if r2['pkt'].data == ['s', 'OTHER']])
+        if n != 1:
+            v.add('other_host_message_not_applied', 'an emit published by '
+                  'host h1 for a client of h0 was delivered %d times' % n,
+                  'got%d' % min(n, 2))
     if not bus.all_consumed():
         v.add('listener_stopped', 'cursors %s of %d'
               % ([s.manager.cursor for s in hosts], len(bus.log)))
